@@ -216,6 +216,94 @@ end program
 """
 
 
+# ---- third family: pointer components one level down (structure holding a fixed-size array of structures) -------
+
+PREAMBLE3 = """
+type cell
+  real*8, dimension(:), pointer :: d
+end type
+
+type mesh
+  real*8 weight
+  type(cell), dimension(2) :: cells
+end type
+"""
+
+ATOMS3 = {
+    "m-euler": [A("km", "<func>fm(<t>, <state>m)"), A("<state>m", "<state>m + 0.5*km")],
+    "m-tmp": [A("mn", "<state>m * 2"), A("<state>m", "mn")],
+    "if{m-euler}": guarded([A("km", "<func>fm(<t>, <state>m)"), A("<state>m", "<state>m + 0.5*km")]),
+    "pm=m": [A("<p>pm", "<state>m")],
+    "fail-if": [["IF", G, [["FAIL"]], None]],
+    "yield m": [["Y", "<state>m", "mstate", "<t>", "final"]],
+}
+
+_REG3 = []
+
+
+def registry3():
+    if not _REG3:
+        import dagrt.codegen.fortran as f
+        from dagrt.function_registry import base_function_registry, register_ode_rhs
+        freg = register_ode_rhs(base_function_registry, "mstate", identifier="<func>fm", input_names=("m",))
+        freg = freg.register_codegen("<func>fm", "fortran", f.CallCode("""
+            <% i = declare_new("integer", "i") %>
+            ${result}%weight = -${m}%weight
+            do ${i} = 1, 2
+              ${result}%cells(${i})%d = -${m}%cells(${i})%d
+            end do
+            """))
+        _REG3.append(freg)
+    return _REG3[0]
+
+
+def generate3(names):
+    import dagrt.codegen.fortran as f
+    body = []
+    for nm in names:
+        body.extend(ATOMS3[nm])
+    init = [A("<state>m", "<func>fm(<t>, <state>m)")]
+    dag = prog.build_dag([("init", init, "main"), ("main", body, "main")], "init")
+    cell = f.StructureType("cell", (("d", f.PointerType(f.ArrayType((3,), f.BuiltinType("real*8")))),))
+    mesh = f.StructureType("mesh", (("weight", f.BuiltinType("real*8")), ("cells", f.ArrayType((2,), cell))))
+    cg = f.CodeGenerator("m", function_registry=registry3(), user_type_map={"mstate": mesh},
+                         module_preamble=PREAMBLE3)
+    return cg(dag)
+
+
+def driver3():
+    return """program drv
+  use m, only: dagrt_state_type, cell, mesh, initialize, run, shutdown
+  implicit none
+  type(dagrt_state_type), target :: st
+  type(dagrt_state_type), pointer :: sp
+  type(mesh) :: m0
+  integer :: k, n
+  character(len=32) :: arg
+  real*8 :: dtv
+  sp => st
+  m0%weight = 1
+  do k = 1, 2
+    allocate(m0%cells(k)%d(3))
+    m0%cells(k)%d = k
+  end do
+  call initialize(dagrt_state=sp, state_m=m0, dagrt_t=0.0d0, dagrt_dt=1.0d0)
+  n = command_argument_count()
+  do k = 1, n
+    call get_command_argument(k, arg)
+    read(arg, *) dtv
+    st%dagrt_dt = dtv
+    call run(dagrt_state=sp)
+  end do
+  call shutdown(dagrt_state=sp)
+  do k = 1, 2
+    deallocate(m0%cells(k)%d)
+  end do
+  write(*,'(A)') 'DONE'
+end program
+"""
+
+
 def classify(rc, out, err):
     """returns (sub, detail) or None"""
     if "LeakSanitizer: detected memory leaks" in err:
@@ -245,17 +333,18 @@ ENV = {"ASAN_OPTIONS": "detect_leaks=1:abort_on_error=0:halt_on_error=1:allocato
 def check_program(names, lab, n, acc=None):
     """returns list of (sub, detail, history) (first per sub-oracle)"""
     two = bool(names) and names[0] in ATOMS2 and names[0] not in ATOMS or (bool(names) and names[0] == "@2")
-    if names and names[0] == "@2":
+    three = bool(names) and names[0] == "@3"
+    if names and names[0] in ("@2", "@3"):
+        two = names[0] == "@2"
         names = names[1:]
-        two = True
     try:
         with kernel.time_limit(120):
-            code = generate2(names) if two else generate(names)
+            code = generate3(names) if three else generate2(names) if two else generate(names)
     except kernel.Budget:
         return [("budget", "generation did not terminate", ())]
     except Exception as ex:
         return [("generate-raises(%s)" % type(ex).__name__, "%s: %s" % (type(ex).__name__, str(ex)[:300]), ())]
-    ok, err = lab.build(code, driver2() if two else driver(), flags=["-fsanitize=address", "-fcheck=pointer"])
+    ok, err = lab.build(code, driver3() if three else driver2() if two else driver(), flags=["-fsanitize=address", "-fcheck=pointer"])
     if not ok:
         return [("compile-fails", err[-600:], ())]
     fails = []
@@ -291,6 +380,13 @@ def bodies(tier):
     for a in n2:
         for b in n2:
             yield ("@2", a, b)
+    n3 = list(ATOMS3)
+    yield ("@3",)
+    for a in n3:
+        yield ("@3", a)
+    for a in (n3 if tier == "thorough" else ["m-euler", "if{m-euler}", "pm=m", "fail-if"]):
+        for b in n3:
+            yield ("@3", a, b)
     for a in names:
         yield (a,)
     second = names if tier == "thorough" else list(CONTROL) + ["euler", "yield w", "w=f(y)", "pw=y", "if{euler}"]
@@ -308,7 +404,9 @@ def bodies(tier):
 
 
 def bounds(tier):
-    return {"atoms": len(ATOMS), "two_type_family_atoms": len(ATOMS2), "k": 2 if tier == "quick" else 3, "history_length_max": 3 if tier == "quick" else 4,
+    return {"atoms": len(ATOMS), "two_type_family_atoms": len(ATOMS2),
+            "nested_structure_family_atoms": "%d (state of a structure type holding an array of structures with pointer "
+            "components)" % len(ATOMS3), "k": 2 if tier == "quick" else 3, "history_length_max": 3 if tier == "quick" else 4,
             "dt_values_per_call": DTS, "sanitizers": "-fsanitize=address (ASan+LSan), -fcheck=pointer"}
 
 
@@ -322,7 +420,7 @@ def shrink(names, sub, lab, n):
     changed = True
     while changed and len(names) > 1:
         changed = False
-        for i in range(1 if names[0] == "@2" else 0, len(names)):
+        for i in range(1 if names[0] in ("@2", "@3") else 0, len(names)):
             c = names[:i] + names[i + 1:]
             r = check_program(c, lab, n)
             if any(f[0] == sub for f in r):
